@@ -513,6 +513,24 @@ func (l Letter) BuildTraces() ptrace.Traces {
 				sp.SetName("a")
 				sp.Events().AppendEmpty().SetName("e")
 			}
+		case "resattrs": // N resources with one long string attribute each (a RESOURCE_ATTRS record of several MB)
+			for i := 0; i < l.Big.N; i++ {
+				rs := td.ResourceSpans().AppendEmpty()
+				rs.Resource().Attributes().PutStr("a", fmt.Sprintf("%0200d", i))
+				rs.ScopeSpans().AppendEmpty().Spans().AppendEmpty().SetName("a")
+			}
+		case "items-skipattrs": // N attribute-bearing spans, two of them with attributes the encoder skips entirely
+			ss := td.ResourceSpans().AppendEmpty().ScopeSpans().AppendEmpty()
+			ss.Spans().EnsureCapacity(l.Big.N)
+			for i := 0; i < l.Big.N; i++ {
+				sp := ss.Spans().AppendEmpty()
+				sp.SetName("a")
+				if i == 5 || i == 9 {
+					fillAttrs(10, sp.Attributes())
+				} else {
+					sp.Attributes().PutInt("k", 1)
+				}
+			}
 		}
 		return td
 	}
@@ -719,6 +737,23 @@ func (l Letter) BuildLogs() plog.Logs {
 				sl := rl.ScopeLogs().AppendEmpty()
 				sl.Scope().SetDroppedAttributesCount(uint32(i + 1))
 				sl.LogRecords().AppendEmpty().Body().SetStr("b")
+			}
+		case "resattrs": // as for traces, but a bytes value: the shared RESOURCE_ATTRS payload type needs another schema
+			for i := 0; i < l.Big.N; i++ {
+				rl := ld.ResourceLogs().AppendEmpty()
+				rl.Resource().Attributes().PutEmptyBytes("a").FromRaw([]byte(fmt.Sprintf("%0200d", i)))
+				rl.ScopeLogs().AppendEmpty().LogRecords().AppendEmpty().Body().SetStr("b")
+			}
+		case "items-skipattrs":
+			sl := ld.ResourceLogs().AppendEmpty().ScopeLogs().AppendEmpty()
+			sl.LogRecords().EnsureCapacity(l.Big.N)
+			for i := 0; i < l.Big.N; i++ {
+				lr := sl.LogRecords().AppendEmpty()
+				if i == 5 || i == 9 {
+					fillAttrs(10, lr.Attributes())
+				} else {
+					lr.Attributes().PutInt("k", 1)
+				}
 			}
 		}
 		return ld
@@ -1161,6 +1196,27 @@ func (l Letter) BuildMetrics() pmetric.Metrics {
 				sm := rm.ScopeMetrics().AppendEmpty()
 				sm.Scope().SetDroppedAttributesCount(uint32(i + 1))
 				sm.Metrics().AppendEmpty().SetName("m")
+			}
+		case "resattrs": // string and int: a third schema for RESOURCE_ATTRS
+			for i := 0; i < l.Big.N; i++ {
+				rm := md.ResourceMetrics().AppendEmpty()
+				rm.Resource().Attributes().PutStr("a", fmt.Sprintf("%0200d", i))
+				rm.Resource().Attributes().PutInt("n", int64(i))
+				rm.ScopeMetrics().AppendEmpty().Metrics().AppendEmpty().SetName("m")
+			}
+		case "items-skipattrs":
+			sm := md.ResourceMetrics().AppendEmpty().ScopeMetrics().AppendEmpty()
+			sm.Metrics().EnsureCapacity(l.Big.N)
+			for i := 0; i < l.Big.N; i++ {
+				m := sm.Metrics().AppendEmpty()
+				m.SetName("m")
+				dp := m.SetEmptyGauge().DataPoints().AppendEmpty()
+				dp.SetIntValue(1)
+				if i == 5 || i == 9 {
+					fillAttrs(10, dp.Attributes())
+				} else {
+					dp.Attributes().PutInt("k", 1)
+				}
 			}
 		}
 		return md
